@@ -155,6 +155,21 @@ reg(Spec("C09", "c09_loops.cpp", needs=("shim", "optable"),
                       "(programs real code cannot rely on either)", "interrupts off; bodies contain no control flow and do not touch lc/repc/sp",
                       "the iteration in which the counter is observed may see the value before or after that iteration's decrement"]))
 
+reg(Spec("C17", "c17_reset.cpp", needs=("shim", "optable"),
+         cases={"quick": 120, "thorough": 3000},
+         rule="rapidcheck-generated pairs of API histories (P, Q), each <= 40 calls drawn from ProgramWrite / DataWrite / targeted "
+              "MMIOWrite (ICU routing, trigger, vectors; timer start/config incl. running timers; DMA channel window; AHBM; APBP "
+              "reply/semaphore/interrupt-disable; BTDMP enable/FIFO; MIU pages/base) / SendData / RecvData / Set/Clear/MaskSemaphore / "
+              "whole-register-state pokes / Run(<=200) of small programs that leave latches, the idle flag, banks and loop frames "
+              "dirty / AHBM host accessors; two real instances whose heap was pre-filled with different byte patterns; mode fresh: Q "
+              "straight after construction on both; mode reset: construct;P;Reset;Q vs construct;Reset;Q; the observation (all "
+              "registers incl. banks, memory digest, masked read-back of ~140 modelled MMIO registers, host views) and the ordered "
+              "callback log are compared after every call of Q. Non-trivial = P dirties >= 3 kinds of state and Q is non-empty "
+              "(fresh mode: Q non-empty); distinct by hash of the encoded case.",
+         assumptions=["backing-storage bits of MMIO bit-field cells that no peripheral models are masked out of the observation",
+                      "the external (AHBM) world is the caller's: both sides continue with a fresh external memory after Reset",
+                      "DMA is configured but not started here (C13/C18 start it); channel select < 8, z/x/y page in {0,1}"]))
+
 # Properties not (yet) claimed. Kept current by hand; every id in properties.jsonl is either in SPECS or here.
 _PENDING = "check not built yet in this round; planned with property-based testing per DESIGN.md"
 NOT_APPLICABLE = [{"property_id": "C%02d" % i, "reason": _PENDING} for i in range(1, 21) if "C%02d" % i not in SPECS]
